@@ -1,9 +1,11 @@
 (* C18/Properties.v — the property theorems only.  Each is closed by [exact] of a lemma from Proofs.v (or by
    vm_compute for a concrete witness) and followed by Print Assumptions.
 
-   Variants (Model.v): [repaired] = all four repairs (mode bits, current-manifest restore, ForceRetry keeps the
-   interrupted upgrade's snapshot, Rollback refuses a journal at "started"); [head1] = /repo at 88f69f7+f4d379f
-   (first two only); [defective] = none.  Reachable state = [exec repaired (init_world c f) ops] for an arbitrary
+   [repaired] (Model.v) = what /repo HEAD does: all four repairs are committed (88f69f7 mode bits, f4d379f
+   current-manifest restore, b6afef3 ForceRetry keeps the interrupted upgrade's snapshot, ca3a3f9 Rollback refuses
+   a journal at "started").  The correspondence check compares /repo with [repaired] only.  [pre_b6afef3] (first two
+   repairs only) and [pre_88f69f7] (none) are historical and appear only in the `_refuted` witnesses below.
+   Reachable state = [exec repaired (init_world c f) ops] for an arbitrary
    installed tree f (symlinks, directories, anything), version c and history ops (applies with any tarball,
    options incl. ForceRetry, fault set and crash label; rollbacks; operator edits; obstacle removal).
 
@@ -155,36 +157,36 @@ Definition interrupted_then_forced : list op :=
   [OpApply (tar_ex 2 PrevNone) no_opts swap_and_rollback_fail;    (* leaves artifact 0 new, artifact 1 old *)
    OpApply (tar_ex 2 PrevNone) force health_fails].               (* ForceRetry, health fails, auto-rollback "succeeds" *)
 
-(* /repo at 88f69f7+f4d379f: the ForceRetry apply re-snapshots the mixed tree; its auto-rollback reports
+(* historical, fixed in b6afef3: the ForceRetry apply re-snapshotted the mixed tree; its auto-rollback reported
    success with artifact 0 still at the new bytes — a mixture against the baseline (tree before attempt 1) *)
 Theorem C18_forceretry_rebase_refuted :
-  exists w' m, last (run head1 (init_world 1 fs_ex) interrupted_then_forced) (init_world 1 fs_ex, (RErr, MonNone))
+  exists w' m, last (run pre_b6afef3 (init_world 1 fs_ex) interrupted_then_forced) (init_world 1 fs_ex, (RErr, MonNone))
                = (w', (RErrRolledBack, m)) /\ m = MonMixed /\ ofile_eqb (fs w' 0) (Some (Reg 20 493)) = true.
 Proof. do 2 eexists. split; [vm_compute; reflexivity|]. split; vm_compute; reflexivity. Qed.
 Print Assumptions C18_forceretry_rebase_refuted.
 
-(* /repo at 88f69f7+f4d379f: the process dies after Snapshot() and before saveCurrentManifest; Rollback accepts
-   the journal at "started", finds no saved manifest and deletes current-manifest.yaml (cur = NOVER), reporting success *)
+(* historical, fixed in ca3a3f9: the process dies after Snapshot() and before saveCurrentManifest; Rollback accepted
+   the journal at "started", found no saved manifest and deleted current-manifest.yaml (cur = NOVER), reporting success *)
 Theorem C18_rollback_without_snapshot_refuted :
-  exists w1 w', apply head1 (tar_ex 2 PrevNone) no_opts dies_before_manifest_saved (init_world 1 fs_ex) = (w1, RCrash) /\
-                rollback_flow head1 no_faults w1 = (w', RbOk) /\ cur w' = NOVER /\ ver_restored w' = MonMixed.
+  exists w1 w', apply pre_b6afef3 (tar_ex 2 PrevNone) no_opts dies_before_manifest_saved (init_world 1 fs_ex) = (w1, RCrash) /\
+                rollback_flow pre_b6afef3 no_faults w1 = (w', RbOk) /\ cur w' = NOVER /\ ver_restored w' = MonMixed.
 Proof. do 2 eexists. split; [vm_compute; reflexivity|]. split; [vm_compute; reflexivity|]. split; vm_compute; reflexivity. Qed.
 Print Assumptions C18_rollback_without_snapshot_refuted.
 
-(* before 88f69f7: a failed apply whose auto-rollback "succeeded" has lost the setuid bit of artifact 0 *)
+(* historical, fixed in 88f69f7: a failed apply whose auto-rollback "succeeded" has lost the setuid bit of artifact 0 *)
 Theorem C18_failed_apply_restored_refuted :
-  exists w', apply defective (tar_ex 2 PrevNone) no_opts health_fails (init_world 1 fs_ex) = (w', RErrRolledBack) /\
+  exists w', apply pre_88f69f7 (tar_ex 2 PrevNone) no_opts health_fails (init_world 1 fs_ex) = (w', RErrRolledBack) /\
              fs w' 0 <> fs_ex 0.
 Proof. eexists. split; [vm_compute; reflexivity|vm_compute; discriminate]. Qed.
 Print Assumptions C18_failed_apply_restored_refuted.
 
-(* before f4d379f: upgrade 1 -> 2, roll back, and a tarball that declares predecessor 2 is installed on the
+(* historical, fixed in f4d379f: upgrade 1 -> 2, roll back, and a tarball that declares predecessor 2 is installed on the
    version-1 tree *)
 Theorem C18_wrong_predecessor_refuted :
-  exists w', exec defective (init_world 1 fs_ex)
+  exists w', exec pre_88f69f7 (init_world 1 fs_ex)
                [OpApply (tar_ex 2 PrevNone) no_opts no_faults; OpRollback no_faults] = w' /\
              g_inst w' = 1 /\ cur w' = 2 /\
-             snd (apply defective (tar_ex 3 (Prev 2 true)) no_opts no_faults w') = ROk.
+             snd (apply pre_88f69f7 (tar_ex 3 (Prev 2 true)) no_opts no_faults w') = ROk.
 Proof. eexists. split; [reflexivity|]. split; [vm_compute; reflexivity|]. split; vm_compute; reflexivity. Qed.
 Print Assumptions C18_wrong_predecessor_refuted.
 
